@@ -17,6 +17,9 @@ CHECKS = {
  "C12": ("exploration", "two-ended handshake monitor against an independent MSE implementation with enumerated pad lengths; policy matrix against reference endpoints",
          "Every handshake is observed at both ends: outcome agreement (both fail / both succeed with one offered cipher), byte identity of initial payload and of both stream directions, must-fail cases (wrong key, corrupt VC, illegal selection). The reference side enumerates its own pad lengths (quick: 64 values per pad incl. the boundaries, thorough: all 0..511) under several transport chunkings; btconn.Accept/Dial are run against reference endpoints for every consistent force/disable setting, counting plaintext attempts.",
          "Reference MSE is written from the MSE/PE specification. rain's own pad lengths are random (not controllable without a hook): covered by repetition only. Session-level use of the flags is covered where C10/C17 sessions run with encryption settings.", "4/C12"),
+ "C16": ("exploration", "trace monitor vs cyclic tier model; bounded-retry monitor on the announcer at quiescence with load canary; reply fuzzing of the real HTTP/UDP tracker clients in child processes against reference servers",
+         "Tier rotation is compared announce by announce with a cyclic model over PRNG success/failure patterns (incl. more failures than members and simultaneous failing announces). The PeriodicalAnnouncer is driven with scripted outcomes (error, timeout, decode error, tracker error, a cancellation it did not request) and, with the real UDP transport, two announcers share a tracker that never answers connect: the next announce must follow within the bounded back-off. Generated HTTP bodies and UDP datagrams (structure-aware, mutated, random; wrong/duplicate/short transactions; endless body) must yield an error or well-formed peers, never a crash or a foreign transaction's peers.",
+         "Back-off schedule (5 s x 2^i +-50 %) is a constant of the code: only the first one or two steps are watched; 'indefinitely' is 20-100 announces per pattern. Response-limit oracle measures what a reference server could push (limit + 64 MiB slack for kernel buffers).", "4/C16"),
 }
 PENDING = {}
 props = [json.loads(l) for l in open(os.path.join(V, 'properties.jsonl'))]
